@@ -38,7 +38,7 @@ CLAIMS = {
         "design_ref": "DESIGN.md section 3 (C05)",
         "note": "JSON text is not in the formula: the token deserializer models which visit_* serde_json calls for each value kind; that model is cross-checked natively against the real "
                 "serde_json on every token tree the harness bodies build in smoke mode (./check --selftest). Unit-output proxies (`{\"parameters\":{}}` for `()`) are not covered "
-                "(needs receive_reply on text). Known findings: `parameters: {}` rejected for field-less derived errors, service errors and GetInfo.",
+                "(needs receive_reply on text). Instances in which `parameters` precedes the tag member make serde buffer the content as symbolic Content trees and take 4-15 min or give no verdict: the quick tier is the measured set of instances that finish in seconds (tag first, or Call<Strict> with the flags in two far-apart orders), the thorough tier adds a sample of the others under a 150 s cap each and reports those that hit it as INCONCLUSIVE - so order independence is decided for the flag members and for tag-first orders, and only sampled for content-first orders. The three encode/decode round-trip harnesses are thorough-tier (10-25 min). Known findings: `parameters: {}` rejected for field-less derived errors, service errors and GetInfo.",
     },
     "C06": {
         "text": "Bounded model checking of the real ReplyStream::poll_next with a symbolic number of owed replies (0..=3) and a symbolic script of receive outcomes (continuing reply, final reply, method error, transport error; receive futures optionally pending): a receive is started only while a reply is owed, items come out in order, the owed count drops exactly on final replies and method errors, the stream ends exactly when nothing is owed or after a transport error and stays ended, and the stream itself never touches frames of later exchanges already buffered in the connection. Chain bookkeeping on the real chain_call/append/send for chains of 1..=3 calls (flags of the last call symbolic, of the earlier ones fixed per instance): exactly the calls' documents are enqueued in order, one reply is expected per call that is not oneway, send() completes with one write carrying exactly those bytes.",
